@@ -993,6 +993,11 @@ func loadChunk(ctx context.Context, db kvStore, r io.Reader) (*time.Time, uint64
 		numKeys++
 	}
 
+	if err := scanner.Err(); err != nil {
+		// the download of the chunk broke: what has been read so far is not the whole chunk
+		return indexTime, numKeys, err
+	}
+
 	if indexTime == nil {
 		return nil, numKeys, errors.New("invalid index file: expect a RFC3339Nano time has header")
 	}
